@@ -313,6 +313,13 @@ def main():
             if v != k and v.isidentifier():
                 table.append(("python.variant", v))
     table = sorted(set(table))
+    # ---- every spelling that python_identifier could map onto a template-bound name N if one of its steps (the underscore test on the
+    #      RAW value, sanitize, snake_case, lower-casing, the reserved-word suffix) were reordered or dropped
+    targets = sorted({n for sc, n in table if sc.startswith(("model.", "endpoint.", "enum."))})
+    spellings = []
+    for N in targets:
+        for sp in sorted({"_" + N, "__" + N, N + "_", " " + N, "-" + N, N + "-", N.upper(), N.title(), N.capitalize(), N.lower()} - {N}):
+            spellings.append((sp, N))
     known = not problems
     # ---- outputs
     lines = ["(* GENERATED by harness/translate/gen_names.py from the ast/symtable of a probe client generated by the tree under verification. Do not edit. *)",
@@ -324,6 +331,10 @@ def main():
     lines.append("].")
     lines.append("(* what the templates add around a document-derived local: (prefix, suffix) *)")
     lines.append("Definition derived_patterns : list (list N * list N) := [" + "; ".join(f"({cstr(a)}, {cstr(b)})" for a, b in sorted(patterns)) + "].")
+    lines.append("(* identifiers bound or read by the generated model / endpoint / enum modules (any scope) *)")
+    lines.append("Definition template_idents : list (list N) := [" + "; ".join(cstr(n) for n in targets) + "].")
+    lines.append("(* (document spelling, template identifier it must not be confused with) *)")
+    lines.append("Definition spelling_names : list (list N * list N) := [\n" + ";\n".join(f"  ({cstr(a)}, {cstr(b)})" for a, b in spellings) + "\n].")
     for p in problems:
         lines.append("(* PROBLEM: " + p.replace("*)", "* )").replace('"', "'") + " *)")
     text = "\n".join(lines) + "\n"
@@ -337,10 +348,12 @@ def main():
     side = {"known": known, "problems": problems, "repo": REPO,
             "candidates": [{"name": n, "scopes": sc} for n, sc in sorted(cands.items())],
             "patterns": [{"prefix": a, "suffix": b, "scopes": sorted(sc)} for (a, b), sc in sorted(patterns.items())],
+            "spellings": [{"name": a, "target": b} for a, b in spellings],
             "reserved_words": sorted(utils.RESERVED_WORDS), "keywords": kws}
     os.makedirs(os.path.dirname(SIDE), exist_ok=True)
     with open(SIDE, "w", encoding="utf-8") as f:
         json.dump(side, f, indent=0, sort_keys=True)
+    print(f"gen_names: {len(spellings)} spellings of {len(targets)} template identifiers;")
     print(f"gen_names: {len(table)} (scope, name) pairs, {len(cands)} distinct candidates, {len(patterns)} derived patterns, known={known}")
     for p in problems:
         print("PROBLEM:", p)
@@ -356,7 +369,8 @@ if __name__ == "__main__":
         try:
             with open(OUT, "w", encoding="utf-8") as f:
                 f.write("From Coq Require Import NArith List.\nImport ListNotations.\nDefinition gen_names_known : bool := false.\n"
-                        "Definition template_names : list (list N * list N) := [].\nDefinition derived_patterns : list (list N * list N) := [].\n")
+                        "Definition template_names : list (list N * list N) := [].\nDefinition derived_patterns : list (list N * list N) := [].\n"
+                        "Definition template_idents : list (list N) := [].\nDefinition spelling_names : list (list N * list N) := [].\n")
         except OSError:
             pass
         rc = 1
